@@ -148,6 +148,22 @@ def run(ctx):
             ck.ob("C11-R2", fn, "tick:exactly-one-chord-send", ok, detail=None if ok else "sends: %s" % [k[0] for k in kinds])
             if ok:
                 chord_vecs.add(kinds[0][1])
+                # the chord is built for THIS tick: a vector made before the loop and refilled "when empty" carries the
+                # previous repeat's chord over when one repeat replaces another without an Idle in between
+                cv = kinds[0][1]
+                if cv[0] == "call" and mir.method_name(cv[1]) in ("new", "with_capacity"):
+                    site = cv[3] if len(cv) > 3 else None
+                    main = [blks for h, blks in body.loops().items() if M.by_name["POLL"] in blks]
+                    inside = (not isinstance(site, int)) or any(site in blks for blks in main)
+                    if not inside:
+                        # ... unless the tick empties it first (a buffer reused for its allocation only)
+                        try:
+                            upto = s.events.index(sends[0][1])
+                        except ValueError:
+                            upto = 0
+                        inside = any(e.kind == "call" and mir.method_name(e.a) == "clear" and e.b and e.b[0] == cv for e in s.events[:upto])
+                    ck.ob("C11-R3", fn, "chord:vector-is-created-in-the-tick-that-sends-it", inside,
+                          detail=None if inside else "the vector the tick sends is created once, before the loop (bb%s): its contents survive from tick to tick and from one repeat to the next" % site)
             if s.dst == "RETURN":
                 continue
             sets = tr.of("SETTIMER")
